@@ -40,9 +40,8 @@ impl Srv for UApp {
         UApp::new_backtest(self, name)
     }
     fn ins(&mut self, bt: u64, t: &[&str]) -> (bool, String) {
-        let px = if t[3] == "-" { None } else { Some(pf(t[3])) };
-        let o = uist::mk_order(pu(t[0]), t[1], pf(t[2]), px);
-        (self.insert_order(o, bt).is_some(), t[..4].join(" "))
+        let o = uist::mk_order_toks(t);
+        (self.insert_order(o, bt).is_some(), t.join(" "))
     }
     fn del(&mut self, bt: u64, t: &[&str]) -> bool {
         self.delete_order(pu(t[0]), bt).is_some()
@@ -296,7 +295,9 @@ pub fn gen(jura_kind: bool, seed: u64, cases: usize, flavour: &str, path: &str) 
                     } else {
                         let t = g.rng.below(6);
                         let p = if t < 2 { "-".to_string() } else { fb(px) };
-                        format!("INS {} {} {} {} {}", bt, t, g.rng.pick(&syms), fb(qty as f64), p)
+                        // one order in twelve arrives with its public `order_id` already set
+                        let preset = if g.rng.chance(1, 12) { format!(" {}", g.rng.below(9)) } else { String::new() };
+                        format!("INS {} {} {} {} {}{}", bt, t, g.rng.pick(&syms), fb(qty as f64), p, preset)
                     };
                     g.stats.bump("INS");
                     g.line(&line);
